@@ -76,8 +76,12 @@ CLAIMED = {
                  "element is the closed-form element of a bin OF THE WRITTEN OBJECT and receives that bin's value, every bin of the object is written "
                  "(so by (c) no other bin changes); (f) every ProjDataFromStream write call that returns normally has flushed everything it wrote (ghost "
                  "dirty flag; seek/write failures and exceptions nondeterministic) - 'visible to an independent reader as soon as each write call returns'; "
-                 "an out-of-range single bin writes nothing. Parametric: numbers of views / tangential positions / bytes per element are constants per job. "
-                 "Not decided: ProjDataFromStream read paths, in-memory segment paths, RelatedViewgrams/fill (loops over the above), order inside the one "
+                 "an out-of-range single bin writes nothing; and has stored its block with the file's scale factor, the one every reader multiplies with; "
+                 "(g) read paths ProjDataFromStream::get_bin_value/get_viewgram/get_sinogram and ProjDataInMemory::get_/set_bin_value, set_segment, "
+                 "get_segment_by_sinogram: every element of the returned object is read once from the closed-form place and scaled once; (h) ProjData base "
+                 "class loops (set_segment x2, get_segment_by_* x2, set_related_viewgrams, fill x2): every part of the object is handed to the smaller path "
+                 "exactly once with its own indices and a failure is reported. Parametric: numbers of views / tangential positions / bytes per element are constants per job. "
+                 "Not decided: ProjDataFromStream::get_segment_by_*, the SegmentByView/SegmentBySinogram conversions, order inside the one "
                  "block of set_segment(by view) in view order, on-disk number type and byte order (write_data/read_data are stubs), the rest of the Interfile "
                  "header round trip (keyword parsing, the two std::sort calls of find_segment_sequence: assumed), that a flushed fstream is visible to "
                  "another process (OS behaviour; exercised natively by the replay driver)."),
@@ -129,7 +133,7 @@ CLAIMED = {
                  "nothing else changed; the block of update_estimate after the additive update (statement kernel K_ossps_clamp_tail, callee contracts) "
                  "leaves every element equal to clamp(old, 0, (float)upper_bound): iterates lie within [0, upper bound]; (b) the integer iteration number n used in "
                  "the relaxation alpha/(1+gamma*n) (statement kernel, per number of subsets): equals the full iteration (k-1)/num_subsets of "
-                 "sub-iteration k for every sub-iteration that is not the last of its full iteration; for the last one it is n+1 (KNOWN FINDING, "
+                 "sub-iteration k for every sub-iteration that is not the last of its full iteration, whatever sub-iteration the run was started (resumed) at; for the last one it is n+1 (KNOWN FINDING, "
                  "reported on every run), never anything else; (c) BOUNDED (sequence length <= 6, not counted as proof): after "
                  "threshold_min_to_small_positive_value every element of a NaN-free denominator is strictly positive. Not decided: the additive update "
                  "formula (array expressions through virtual objective-function calls), the curvature, restart equivalence."),
